@@ -438,6 +438,7 @@ func runC13(cx *CheckCtx) {
 	checkDivideIndices(cx, sp)
 	checkNilSideUse(cx, sp)
 	checkSubmissionTracked(cx, sp)
+	checkPackageState(cx, sp)
 	// D12 the 'not found' test of a position-or-sentinel local keeps position 0 with the other positions
 	nST, fst := ruleSentinelTest(p)
 	cx.count("sentinel_tests", nST)
